@@ -145,7 +145,7 @@ func FindPathFromModel(path string, rwPaths ReadWritePathMap, exact bool) (bool,
 		// Find a short path
 		if exact && pathNoIndices == searchPathNoIndices {
 			return false, &modelElem, nil
-		} else if !exact && strings.HasPrefix(pathNoIndices, searchPathNoIndices) {
+		} else if !exact && IsSubPath(pathNoIndices, searchPathNoIndices) {
 			return false, &modelElem, nil // returns the first thing it finds that matches the prefix
 		}
 	}
@@ -185,6 +185,14 @@ func IsPathValid(path string) error {
 		return errors.NewInvalid("invalid path %s. Must match %s", path, validPathRegexp)
 	}
 	return nil
+}
+
+// IsSubPath returns true if path is the given root or lies beneath it at a path element boundary
+func IsSubPath(path string, root string) bool {
+	if !strings.HasPrefix(path, root) {
+		return false
+	}
+	return len(path) == len(root) || path[len(root)] == '/' || path[len(root)] == '['
 }
 
 // GetParentPath returns the immediate parent path of the specified path; empty string if "/" is given
